@@ -66,7 +66,7 @@ async fn areq(ctx: &Ctx, s: S, arg: u32) -> u32 {
     }
 }
 
-fn areq_owned(ctx: Ctx, s: S, arg: u32) -> futures::future::BoxFuture<'static, u32> {
+pub fn areq_owned(ctx: Ctx, s: S, arg: u32) -> futures::future::BoxFuture<'static, u32> {
     async move { areq(&ctx, s, arg).await }.boxed()
 }
 
@@ -162,6 +162,13 @@ pub fn build(p: &P) -> Cmd {
                     ctx.send_event(Event::got(t, Op::val(w)));
                 }
             });
+        }),
+        P::SpawnEvent(m, s) => Command::new(move |ctx| async move {
+            ctx.spawn(move |ctx| async move {
+                ctx.send_event(Event::mark(m, 0));
+            });
+            let v = areq(&ctx, s, 0).await;
+            ctx.send_event(Event::got(s, v));
         }),
         P::Join(s, t) => Command::new(move |ctx| async move {
             let (v, w) = futures::join!(areq(&ctx, s, 0), areq(&ctx, t, 0));
